@@ -120,3 +120,17 @@ Theorem C02_ratio_depends_on_which_trajectory_is_the_reference : exists (ref est
   rpeR point_distance_error_ratio pairs est ref <> rpeR point_distance_error_ratio pairs ref est.
 Proof. exact rpe_ratio_not_symmetric. Qed.
 Print Assumptions C02_ratio_depends_on_which_trajectory_is_the_reference.
+
+(* ---- body frame (added after every property had a check): right-multiplying every pose of both trajectories by one rigid
+   T conjugates the error pose, so the rotation-angle values do not depend on the body-frame convention ---- *)
+Theorem C02_error_pose_conjugated_by_common_body_frame_change : forall Qi Qj Pi Pj t : PoseR,
+  Orth (prot Qi) -> Orth (prot Qj) -> Orth (prot Pi) -> Orth (prot t) ->
+  rpe_base (pmul Qi t) (pmul Qj t) (pmul Pi t) (pmul Pj t) = pmul (pinv t) (pmul (rpe_base Qi Qj Pi Pj) t).
+Proof. exact rpe_base_right. Qed.
+Print Assumptions C02_error_pose_conjugated_by_common_body_frame_change.
+Theorem C02_rotation_angle_independent_of_body_frame : forall (Qi Qj Pi Pj t : PoseR) rel,
+  Orth (prot Qi) -> Orth (prot Qj) -> Orth (prot Pi) -> Orth (prot t) ->
+  rel = rotation_angle_rad \/ rel = rotation_angle_deg ->
+  reduceR rel (rpe_base (pmul Qi t) (pmul Qj t) (pmul Pi t) (pmul Pj t)) = reduceR rel (rpe_base Qi Qj Pi Pj).
+Proof. exact rpe_rotation_values_body_frame_invariant. Qed.
+Print Assumptions C02_rotation_angle_independent_of_body_frame.
